@@ -3,6 +3,7 @@
 
 pub mod celldrv;
 pub mod combi;
+pub mod gatherenum;
 pub mod histdrv;
 pub mod ctors;
 pub mod pbwire;
